@@ -187,9 +187,26 @@ def impl_state(schema, prefix_text, with_handlers=False):
 # ---------------------------------------------------------------------------
 # in-memory resources (where the file system is not the subject)
 
-def mem_loader(schema, files, overrides=(), log=None):
+class _Stream(io.BytesIO):
+    """what urlopen returns, as far as BaseLoader.openResource looks at it"""
+
+    def __init__(self, data, url):
+        io.BytesIO.__init__(self, data)
+        self.url = url
+
+    def geturl(self):
+        return self.url
+
+    def info(self):
+        import email.message
+        return email.message.Message()
+
+
+def mem_loader(schema, files, overrides=(), log=None, real_open=False):
     """ConfigLoader whose public openResource serves file:///v/... URLs from `files`
-    (dict url -> text).  `log` (list) receives every URL opened."""
+    (dict url -> text).  `log` (list) receives every URL opened.
+    real_open: the loader's own BaseLoader.openResource runs (decoding, wrapping, createResource) and only
+    urllib.request.urlopen is replaced, for the duration of each call, by one that serves the bytes of `files`."""
     import ZConfig
     import ZConfig.loader
     base = ZConfig.loader.ConfigLoader
@@ -202,6 +219,14 @@ def mem_loader(schema, files, overrides=(), log=None):
             url = str(url)
             if log is not None:
                 log.append(url)
+            if url in files and real_open:
+                import urllib.request
+                saved = urllib.request.urlopen
+                urllib.request.urlopen = lambda u, *a, **k: _Stream(files[str(u)].encode("utf-8"), str(u))
+                try:
+                    return base.openResource(self, url)
+                finally:
+                    urllib.request.urlopen = saved
             if url in files:
                 return self.createResource(io.StringIO(files[url]), url)
             if url.startswith("file:///v/"):
